@@ -1260,7 +1260,8 @@ impl DqS for QAuto {
     }
 }
 
-const DQ_FIXED: &[&str] = &["fixedq:1", "fixedq:2", "fixedq:4", "fixedq:8", "fixedq:16"];
+// capacities that are and are not powers of two (index arithmetic by mask versus by remainder)
+const DQ_FIXED: &[&str] = &["fixedq:1", "fixedq:2", "fixedq:3", "fixedq:4", "fixedq:5", "fixedq:6", "fixedq:7", "fixedq:8", "fixedq:16"];
 const DQ_GROW: &[&str] = &[
     "autogrow:new", "autogrow:cap_1", "autogrow:cap_2", "autogrow:cap_3", "autogrow:cap_4", "autogrow:cap_5", "autogrow:cap_6",
     "autogrow:cap_7", "autogrow:cap_8",
@@ -1281,7 +1282,11 @@ fn make_dq(name: &str) -> Option<Box<dyn DqS>> {
         "fixedq" => match fixed_cap(name) {
             1 => Box::new(QFixed::<1>(FixedCircularQueue::new())),
             2 => Box::new(QFixed::<2>(FixedCircularQueue::new())),
+            3 => Box::new(QFixed::<3>(FixedCircularQueue::new())),
             4 => Box::new(QFixed::<4>(FixedCircularQueue::new())),
+            5 => Box::new(QFixed::<5>(FixedCircularQueue::new())),
+            6 => Box::new(QFixed::<6>(FixedCircularQueue::new())),
+            7 => Box::new(QFixed::<7>(FixedCircularQueue::new())),
             8 => Box::new(QFixed::<8>(FixedCircularQueue::new())),
             16 => Box::new(QFixed::<16>(FixedCircularQueue::new())),
             _ => return None,
